@@ -1,8 +1,8 @@
 CONSTANTS KINDS = {0,1,2} BINS = {0,1,2,3,4,8,16} TYPES = {0,1,2,3,4,5,6,7}
- XS = {1,2,31,32,33,64,65,2048,2049,4095,4096,4097,8192,8193}
- YS = {1,2,31,32,33,64,65,2048,2049,4095,4096,4097,8192,8193}
- XS2 = {1,33,2049,8193} YS2 = {2,63,4097} OES = {0,2}
- AVXS = {0,1} FIX_SIZE = 1 FIX_LOCK = 1 FIX_ALIGN = 1 ALIGN16 = TRUE SampleMod = 500
+ XS = {1,2,3,31,32,33,63,64,65,2048,2049,4095,4096,4097,8192,8193}
+ YS = {1,2,3,31,32,33,63,64,65,2048,2049,4095,4096,4097,8192,8193}
+ XS2 = {1,33,2049,8193} YS2 = {2,63,4097} OES = {0,1,2}
+ AVXS = {0,1} FIX_SIZE = 1 FIX_LOCK = 1 FIX_ALIGN = 1 ALIGN16 = TRUE SampleMod = 900
 SPECIFICATION Spec
 VIEW View
 CHECK_DEADLOCK FALSE
